@@ -28,7 +28,9 @@ pub fn run(ctx: &mut Ctx) {
         Eval { label: "events", func: "ev_events".into(), role: "corr" },
         Eval { label: "tree", func: "ev_tree".into(), role: "corr" },
         Eval { label: "dom", func: "ev_dom".into(), role: "corr" },
+        Eval { label: "bytes", func: "ev_bytes".into(), role: "corr" },
         Eval { label: "exact", func: "or_exact".into(), role: "oracle" },
+        Eval { label: "reflects", func: "or_reflects".into(), role: "oracle" },
         Eval { label: "hyp", func: "in_hyp_docs".into(), role: "hyp" },
     ];
     let mut sh = Shards::new(&ctx.out, "docs", DOC_IMPORTS, "doccase", evals, "show_case", if ctx.thorough { 1500 } else { 400 });
@@ -41,7 +43,8 @@ pub fn run(ctx: &mut Ctx) {
 
     let mut add = |sh: &mut Shards, docs: &[Vec<Node>], kind: &str, hist: &mut Hist, samples: &mut Vec<J>, rng: &mut crate::rng::Rng| {
         let bytes = serialise(docs, rng);
-        let b = build_case(Some(docs), &bytes, &cfg, &[], &mut sh.intern, vec![("kind", json::s(kind))]);
+        let opts = [Opts::quick_xml().sorted(rng.chance(1, 2))];
+        let b = build_case(Some(docs), &bytes, &cfg, &opts, &mut sh.intern, vec![("kind", json::s(kind))]);
         hist.add(kind);
         hist.add(&format!("docs={}", docs.len()));
         hist.add(&format!("result={}", b.result.class()));
@@ -88,6 +91,7 @@ pub fn run(ctx: &mut Ctx) {
         add(&mut sh, &docs, "random-seq", &mut hist, &mut samples, &mut rng);
     }
     let files = sh.finish();
+    ctx.add_chars();
     ctx.meta.push(("evaluations", J::N(evaluations)));
     ctx.meta.push(("distinct_nontrivial", J::N(distinct.len() as i64)));
     ctx.meta.push(("rule", json::s(format!(
@@ -95,5 +99,5 @@ pub fn run(ctx: &mut Ctx) {
         roots.len(), single_stride, sub.len(), sub.len(), n_rand))));
     ctx.meta.push(("histogram", hist.json()));
     ctx.meta.push(("samples", J::A(samples)));
-    ctx.meta.push(("shards", J::A(files)));
+    ctx.shards.extend(files);
 }
